@@ -9,10 +9,28 @@ from .poly import Normaliser
 from .concrete import flat, lincomb_of, run_concrete
 
 
+def path_equalities(path):
+    """var == constant facts decided on the path (guards, selected indices): usable as substitutions"""
+    out = {}
+    for c in path.assume + path.pc:
+        c = z3.simplify(c)
+        todo = [c]
+        while todo:
+            x = todo.pop()
+            if z3.is_and(x):
+                todo.extend(x.children())
+            elif z3.is_eq(x):
+                a, b = x.children()
+                for u, v in ((a, b), (b, a)):
+                    if z3.is_int_value(v) and z3.is_const(u) and u.decl().kind() == z3.Z3_OP_UNINTERPRETED:
+                        out[u.get_id()] = v.as_long()
+    return out
+
+
 def normaliser(env, trace):
     nz = trace.extra.get("nz")
     if nz is None:
-        nz = Normaliser(env.P, trace.path.prod_defs, trace.path.red_defs)
+        nz = Normaliser(env.P, trace.path.prod_defs, trace.path.red_defs, subst=path_equalities(trace.path))
         trace.extra["nz"] = nz
     return nz
 
